@@ -675,7 +675,13 @@ MessageReceivedFromGateway(const MessageRef & msgRef, void * userData)
                   const PathMatcherEntry * e = _subscriptions.GetEntries()[depth].Get(fixPath);
                   if (e)
                   {
-                     const QueryFilter * subscriptionFilter = e->GetFilter()();
+                     const ConstQueryFilterRef oldFilterRef = e->GetFilter();  // keeps the old filter alive until we are done with it
+                     const QueryFilter * subscriptionFilter = oldFilterRef();
+
+                     // Set e's filter to the new filter.  (FogBugz #5803)  We do this before the traversal below, so that
+                     // ChangeQueryFilterCallback() can tell whether a node is still matched by any of our subscriptions.
+                     (void) _subscriptions.SetFilterForEntry(fixPath, filter);
+
                      if ((GetSubscriptionsEnabled())&&((filter() != NULL)||(subscriptionFilter != NULL)))
                      {
                         // If the filter is different, then we need to change our subscribed-set to
@@ -688,9 +694,6 @@ MessageReceivedFromGateway(const MessageRef & msgRef, void * userData)
                            (void) temp.DoTraversal((PathMatchCallback)ChangeQueryFilterCallbackFunc, this, GetGlobalRoot(), false, args);
                         }
                      }
-
-                     // And now, set e's filter to the new filter.
-                     (void) _subscriptions.SetFilterForEntry(fixPath, filter);  // FogBugz #5803
                   }
                   else
                   {
@@ -1324,7 +1327,13 @@ ChangeQueryFilterCallback(DataNode & node, void * ud)
    ConstMessageRef constMsg2 = node.GetData();
    const bool oldMatches = ((constMsg1() == NULL)||(oldFilter == NULL)||(oldFilter->Matches(constMsg1, &node)));
    const bool newMatches = ((constMsg2() == NULL)||(newFilter == NULL)||(newFilter->Matches(constMsg2, &node)));
-   if (oldMatches != newMatches) NodeChangedAux(node, constMsg2, oldMatches?NodeChangeFlags(NODE_CHANGE_FLAG_ISBEINGREMOVED):NodeChangeFlags());
+   if (oldMatches != newMatches)
+   {
+      // If the node no longer matches the changed subscription, but another of our subscriptions still matches it, then
+      // the client is still subscribed to it, so we mustn't tell him it went away.  (The changed subscription's new filter is already installed)
+      ConstMessageRef constMsg3 = node.GetData();
+      if ((oldMatches == false)||(_subscriptions.MatchesNode(node, constMsg3, 0) == false)) NodeChangedAux(node, constMsg2, oldMatches?NodeChangeFlags(NODE_CHANGE_FLAG_ISBEINGREMOVED):NodeChangeFlags());
+   }
    return node.GetDepth();  // continue traversal as usual
 }
 
